@@ -1,6 +1,6 @@
 (* C09 -- environment variables round-trip exactly (subshell isolation is decided end-to-end, see DESIGN.md).
    Property theorems only; proofs are in ProofC09.v. *)
-From TV Require Import Base Utf8 Utf8Lemmas Regex Channel ChannelLemmas Hush Session ProofSession ProofC19 Sh ProofC01 ProofC09 ProofEnvUtf8 Subshell ProofC09b.
+From TV Require Import Base Utf8 Utf8Lemmas Regex Channel ChannelLemmas Hush Session ProofSession ProofC19 Sh ProofC01 ProofC09 ProofEnvUtf8 Subshell ProofC09b ProofC04b ProofC18c ProofInit ProofC09c.
 
 (* (1) the line env(var, value) sends is read by the shell as  export NAME=VALUE  with exactly the value:
        for all names and values without NUL (leading dashes, backslashes, quotes, $, globs, newlines, blanks ...) *)
@@ -90,3 +90,27 @@ Theorem C09_subshell_leave_resyncs :
              wr (io c') = wr (io c) ++ EXIT_CMD ++ [CR] /\ prompt c' = prompt c.
 Proof. exact subshell_leave_resyncs. Qed.
 Print Assumptions C09_subshell_leave_resyncs.
+
+(* (7) ... and entering it: the spawn command is sent, the inner shell initialised like any shell (C01's theorem about
+       _init_shell): when the probe's answer shows up in time among what the console prints after the spawn command
+       and the probe, and the later answers contain the prompt only at their end, the machine is in sync with the inner
+       shell, prompt and black-list installed -- for EVERY fragmentation and timing (shift t st = the stage's pieces at
+       their absolute times; ready = bytes arriving strictly before the deadline) *)
+Theorem C09_subshell_enter_ok :
+  forall fuel tmo bl cfg spawn c (st_spawn st0 st_ps1 : stage) (stgs : list stage) (st_san : stage) a noise1,
+  insync c -> slow c = None -> (0 < tmo)%Z ->
+  wf_pend st_spawn -> any_in (blacklist c) (spawn ++ [CR]) = false ->
+  wf_pend st0 -> any_in (blacklist c) (PROBE ++ [CR]) = false ->
+  find_sub PROBE_ANSWER (cat st_spawn ++ cat st0) = Some a ->
+  a + length PROBE_ANSWER <= ready (Some (now (io c) + tmo)%Z) (shift (now (io c)) st_spawn ++ shift (now (io c)) st0) ->
+  any_in bl (PS1_LINE ++ [CR]) = false ->
+  Forall (fun l => any_in bl (l ++ [CR]) = false) cfg ->
+  any_in bl (SANITY ++ [CR]) = false ->
+  wf_pend st_ps1 -> cat st_ps1 = noise1 ++ TBOT_PROMPT ->
+  prompt_only_at_end TBOT_PROMPT (skipn (a + length PROBE_ANSWER) (cat st_spawn ++ cat st0) ++ noise1) ->
+  Forall2 (fun l stg => wf_pend stg /\ exists noise, cat stg = noise ++ TBOT_PROMPT /\ prompt_only_at_end TBOT_PROMPT noise) cfg stgs ->
+  wf_pend st_san -> cat st_san = tty_echo false (SANITY ++ [CR]) ++ onlcr SANITY_ANSWER ++ TBOT_PROMPT ->
+  exists c', subshell_enter (S fuel) tmo bl PS1_LINE cfg spawn (st_spawn :: st0 :: st_ps1 :: stgs ++ [st_san]) c = (IOk, c', []) /\
+             insync c' /\ prompt c' = Some (SLit TBOT_PROMPT) /\ blacklist c' = bl.
+Proof. exact subshell_enter_ok. Qed.
+Print Assumptions C09_subshell_enter_ok.
